@@ -819,6 +819,7 @@ pub fn check_main(cc: &CheckCfg) -> i32 {
     let mut known_lines: Vec<String> = Vec::new();
     let mut violations = 0u64;
     let mut seen_class: BTreeMap<String, u32> = BTreeMap::new();
+    let mut harness_panics: Vec<String> = Vec::new();
     let mut todo: Vec<(u64, String)> = Vec::new();
     for (i, v) in &failing {
         todo.push((*i, v.clause.clone()));
@@ -891,6 +892,12 @@ pub fn check_main(cc: &CheckCfg) -> i32 {
             known_ids.entry(f.id.clone()).or_insert((f.text.clone(), 0)).1 += 1;
             continue;
         }
+        // a panic located in the simulator's own sources (relative path `src/...`; the library's are absolute) is a
+        // defect of the harness, not of the code under test: exit 2, no VIOLATION line
+        if mv.clause == "process-died" && mv.detail.contains("unix_wait_status(25856)") && mv.detail.contains("PANIC: ") && mv.detail.contains(" @ src/") {
+            harness_panics.push(format!("run {} (seed {}): {}", i, seed, mv.detail));
+            continue;
+        }
         violations += 1;
         let path = replay_dir.join(format!("{}-{}.json", cc.prop, seed));
         let body = json!({"violation": mv, "original_run_index": i, "original_seed": seed, "minimiser_evaluations": evals, "scenario": msc});
@@ -931,7 +938,7 @@ pub fn check_main(cc: &CheckCfg) -> i32 {
         let seed = run_seed(cc.base, &cc.prop, i);
         samples.push(compact_sample(&generate(&cc.prop, seed, cc.tier)));
     }
-    let harness_error = completed == 0 || !nondet.is_empty();
+    let harness_error = completed == 0 || !nondet.is_empty() || !harness_panics.is_empty();
     let evidence = json!({
         "property_id": cc.prop,
         "tier": tier_name(cc.tier),
@@ -1009,7 +1016,10 @@ pub fn check_main(cc: &CheckCfg) -> i32 {
         wall,
         digest_all
     );
-    if harness_error {
+    for h in &harness_panics {
+        eprintln!("HARNESS-ERROR: the simulator itself panicked: {}", h);
+    }
+    if harness_error && harness_panics.is_empty() {
         eprintln!("HARNESS-ERROR: completed={} runs whose failure did not reproduce in a fresh process or whose in-worker re-execution differed: {:?}", completed, nondet);
     }
     // reproducible, minimised violations take precedence over the harness error
